@@ -385,11 +385,15 @@ func (g *gen) randomEntry() {
 			pres := n
 			fault := ""
 			if n > 0 && r.Intn(100) < g.adv/8+1 {
-				switch r.Intn(3) {
+				switch r.Intn(5) {
 				case 0:
 					pres = 0 // CRC mismatch
 				case 1:
 					fault = "L" // declared size one more than the payload
+				case 2:
+					fault = "M" // compression method 99: f.Open() fails, before anything is created
+				case 3:
+					fault = "H" // local file header destroyed: f.Open() fails
 				default:
 					if n <= 40 {
 						fault = "S" // declared size one less than the payload
@@ -413,10 +417,18 @@ func (g *gen) randomEntry() {
 		default:
 			tg := g.symTarget()
 			pres := 1
+			unopenable := 0
 			if r.Intn(100) < g.adv/8+1 {
-				pres = 0
+				switch r.Intn(3) {
+				case 0:
+					pres = 0
+				case 1:
+					unopenable = 99 // compression method 99
+				default:
+					unopenable = 98 // local file header destroyed
+				}
 			}
-			g.entry("s", nm, 0o777, seed, 0, pres, tg)
+			g.entry("s", nm, 0o777, seed, unopenable, pres, tg)
 			g.note(nm, true)
 		}
 		return
@@ -527,7 +539,7 @@ func (g *gen) scenario() {
 			sz := hx.Pick(r, []int{1, 2, 512, 513, 32769})
 			switch {
 			case g.zip:
-				g.entry("f", nm, g.fmode(), i, sz, hx.Pick(r, []int{0, sz}), hx.Pick(r, []string{"L", "L", ""}))
+				g.entry("f", nm, g.fmode(), i, sz, hx.Pick(r, []int{0, sz}), hx.Pick(r, []string{"L", "M", "H", ""}))
 			case r.Bool():
 				g.entry("r", nm, g.fmode(), i, sz, r.Intn(sz), "")
 			default:
@@ -622,7 +634,7 @@ func (g *gen) many() {
 		nm := fmt.Sprintf("%s/f%d", dir, i)
 		switch {
 		case i == faultAt && g.zip:
-			g.entry("f", nm, 0o644, i%256, 9, 0, hx.Pick(r, []string{"", "L", "S"}))
+			g.entry("f", nm, 0o644, i%256, 9, 0, hx.Pick(r, []string{"", "L", "S", "M", "H"}))
 		case i == faultAt && r.Bool():
 			g.entry("x", "-", 0, r.Intn(2), 0, 0, "")
 		case i == faultAt:
